@@ -1989,7 +1989,7 @@ Proof.
     rewrite <- tagof_cvw. rewrite <- (stops_tagof (map tagof (cvw ch)) (cvw ch)). rewrite tagof_cvw. apply in_map. exact Hx. }
   set (s3 := if 0 <? h then fst (handle_reject cfg s2 c h 0 true true 60 120) else s2).
   assert (S3 : rsame s2 s3) by (unfold s3; destruct (0 <? h); [apply rsame_handle_reject|apply rsame_refl]).
-  assert (S4 : rsame s3 (upd_chan s3 c h (fun ch0 => ch0 <| ch_status := ChClosed |>))) by (apply rsame_upd_chan; reflexivity).
+  assert (S4 : rsame s3 (upd_chan s3 c h (fun ch0 => ch0 <| ch_status := ChClosed |> <| ch_cur := None |>))) by (apply rsame_upd_chan; reflexivity).
   pose proof (rsame_trans _ _ _ S3 S4) as [S5 S6].
   split; [eapply RI_rsame; [exact (conj S5 S6)|exact R2]|]. split.
   - intros c1 h1. rewrite S5, B2, B1. destruct ((c1 =? c) && (h1 =? h)) eqn:Eb; auto. rewrite Ev. reflexivity.
